@@ -70,6 +70,14 @@ class C14(Property):
                     for r in (self.REPL_TOK if e.kind < 100 else ["S9 X%d F", "S9 S2 F X%d F"]):
                         res.append(("exhaustive", "Y %s | %s | %s" % (" ".join(ev), pstr, r % e.kind)))
                     res.append(("exhaustive", "Y %s | %s | S9 T%d:97 F" % (" ".join(ev), pstr, e.kind + 1 if e.kind < 100 else 7)))
+        # the same under forced hash collisions (mask 0: every child hash is 0; mask 3: four values): what replace_with
+        # returns must not rest on the hash
+        masked = []
+        for stream, c in res:
+            if stream == "exhaustive" and len(c) < 60:
+                masked.append((stream, "Y m0 " + c[2:]))
+                masked.append((stream, "Y m3 " + c[2:]))
+        res += masked
         rng = Rng(seed + 14)
         nrand = 800 if tier == "quick" else 15000
         for _ in range(nrand):
@@ -85,11 +93,13 @@ class C14(Property):
             else:
                 k = e.kind if rng.chance(9, 10) else (e.kind + 1 if e.kind < 100 else 7)
                 rep = ["S9", ("X%d" % k) if k >= 100 else "T%d:%s" % (k, rng.choice(["", "97", "120.233.122"])), "F"]
-            res.append(("random", "Y %s | %s | %s" % (" ".join(ev), pstr, " ".join(rep))))
+            res.append(("random", "Y %s%s | %s | %s" % (rng.choice(["", "", "m0 ", "m3 "]), " ".join(ev), pstr, " ".join(rep))))
         return res
 
     def spec(self, case, impl):
         ev, pstr, rev = [x.strip().split(" ") for x in case[2:].split(" | ")]
+        if ev and ev[0].startswith("m"):
+            ev = ev[1:]          # hash mask: the expected result does not depend on it
         t, r = tree_of(ev), tree_of(rev)
         if t is None or r is None:
             return None if impl == "BUILD-PANIC" else "expected BUILD-PANIC"
